@@ -548,8 +548,9 @@ Definition layout_okb (O : oracle) (c : cfg) (m : mem) (vis : list sym) : bool :
                        && (negb (spec_decision O c s =? -1)%Z || (6 <=? s_size s))) vis.
 
 (* executable property checker for an observed update: before/after byte windows at [base, base+len) *)
+(* (the upper bound keeps N.to_nat small when the checker executes a stray jump to a far address) *)
 Definition mem_of (base : N) (l : bytes) : mem :=
-  fun a => if base <=? a then nth (N.to_nat (a - base)) l 0 else 0.
+  fun a => if (base <=? a) && (a <? base + N.of_nat (length l)) then nth (N.to_nat (a - base)) l 0 else 0.
 Definition window (m : mem) (base : N) (len : nat) : bytes := rd m base len.
 Definition ok_update (O : oracle) (c : cfg) (syms : list sym) (targets : list N) (base : N)
            (before after : bytes) : bool :=
@@ -820,6 +821,45 @@ Definition f_ok (f : fcase) : bool :=
   if existsb (probe_sym true m) (f_syms f)
   then match dyntype_of (i_type f) with DFentryNop | DPatchable => true | _ => false end
   else true.
+
+(* ------------------------------------------------------------------ reading __patchable_function_entries *)
+(* read_patchable_loc (arch/x86_64/mcount-dynamic.c).  File addresses vs run-time addresses: a module
+   is loaded with a load bias (dlpi_addr); its first PT_LOAD segment has p_vaddr [first_vaddr] (0 for
+   a PIE linked by GNU ld, the image base for an lld PIE or a non-PIE); mdi->base_addr = map->start =
+   first_vaddr + bias.  The section lives at sh_addr + bias and - after relocation - holds the run-time
+   addresses of the patchable locations.  The result is relative to map->start.
+   [fixed = false]: the code as found added base_addr (not the bias) to sh_addr for ET_DYN. *)
+Local Open Scope Z_scope.
+Record elfinfo := { ei_dyn : bool; ei_sh_addr : Z; ei_first_vaddr : Z; ei_bias : Z; ei_n : nat }.
+Definition ei_base (ei : elfinfo) : Z := ei_first_vaddr ei + ei_bias ei.
+Definition section_read_addr (fixed : bool) (ei : elfinfo) : Z :=
+  ei_sh_addr ei + (if ei_dyn ei then (if fixed then ei_base ei - ei_first_vaddr ei else ei_base ei) else 0).
+Definition read_patchable_loc (fixed : bool) (ei : elfinfo) (rt : Z -> Z) : list Z :=
+  map (fun i => rt (section_read_addr fixed ei + 8 * Z.of_nat i) - ei_base ei) (seq 0 (ei_n ei)).
+(* the loader put the relocated section where it belongs *)
+Definition loaded_section (ei : elfinfo) (locs : list Z) (rt : Z -> Z) : Prop :=
+  forall i, (i < length locs)%nat -> rt (ei_sh_addr ei + ei_bias ei + 8 * Z.of_nat i) = nth i locs 0 + ei_bias ei.
+
+Record rcase := {
+  r_dyn : bool; r_sh_addr : Z; r_first_vaddr : Z; r_locs : list Z;       (* file addresses *)
+  i_fatal_r : bool; i_rtype : N; i_targets : list Z
+}.
+Definition Zlist_eqb := list_eqb Z.eqb.
+(* both: the model with the memory the harness prepared, and the property (every location, relative
+   to the module's start) *)
+Definition r_expected (r : rcase) : list Z := map (fun l => l - r_first_vaddr r) (r_locs r).
+Definition r_agrees (fixed : bool) (r : rcase) : bool :=
+  let ei := {| ei_dyn := r_dyn r; ei_sh_addr := r_sh_addr r; ei_first_vaddr := r_first_vaddr r;
+               ei_bias := if r_dyn r then 4096000 else 0; ei_n := length (r_locs r) |} in
+  let rt := fun a => let k := (a - (ei_sh_addr ei + ei_bias ei)) / 8 in
+                     if (0 <=? a - (ei_sh_addr ei + ei_bias ei)) && (k <? Z.of_nat (length (r_locs r)))
+                        && ((a - (ei_sh_addr ei + ei_bias ei)) mod 8 =? 0)
+                     then nth (Z.to_nat k) (r_locs r) 0 + ei_bias ei else 0 in
+  if fixed then negb (i_fatal_r r) && Zlist_eqb (read_patchable_loc true ei rt) (i_targets r)
+  else true.
+Definition r_ok (r : rcase) : bool :=
+  negb (i_fatal_r r) && (i_rtype r =? 5)%N && Zlist_eqb (r_expected r) (i_targets r).
+Local Close Scope Z_scope.
 
 (* ------------------------------------------------------------------ -Z SIZE on the command line *)
 (* uftrace.c (case 'Z'): strtol(arg, NULL, 0) -> opts->size_filter (int);  cmds/record.c: if non-zero,
